@@ -80,7 +80,7 @@ def specRename (attrs : List (List Item)) : Option (List Char) :=
   (attrs.flatten.filter (·.k == "rename")).getLast?.bind (·.v)
 def specSkip (attrs : List (List Item)) : Bool := attrs.flatten.any (·.k == "skip")
 def specRenameAll (attrs : List (List Item)) : Option (List Char) :=
-  (attrs.flatten.filter (·.k == "rename_all")).getLast?.bind (·.v)
+  (attrs.flatten.filter (fun i => i.k == "rename_all" || i.k == "rename_all_long")).getLast?.bind (·.v)
 
 def hasSub (pat : String) (s : List Char) : Bool := A.containsSub pat.toList s
 
